@@ -28,6 +28,7 @@ type round struct {
 	N         int    // contenders
 	Cleans    []bool // per contender
 	OldState  string // none idle mid-handshake pubrel-racing token-wait dying blocked-in-send
+	BadAuth   bool   // credentials configured; a refused attempt with the same id precedes the contenders
 	OldClean  bool
 	Traffic   bool
 	Perturb   bool
@@ -35,7 +36,7 @@ type round struct {
 }
 
 func (r round) String() string {
-	return fmt.Sprintf("#%d old=%s(clean=%t) contenders=%d cleans=%v traffic=%t perturb=%t staggered=%t", r.Idx, r.OldState, r.OldClean, r.N, r.Cleans, r.Traffic, r.Perturb, r.Staggered)
+	return fmt.Sprintf("#%d old=%s(clean=%t) contenders=%d cleans=%v traffic=%t perturb=%t staggered=%t", r.Idx, r.OldState, r.OldClean, r.N, r.Cleans, r.Traffic, r.Perturb, r.Staggered) + map[bool]string{true: " refused-attempt-first", false: ""}[r.BadAuth]
 }
 
 func run(r *h.Run, rd round) {
@@ -55,6 +56,13 @@ func run(r *h.Run, rd round) {
 	b.Mon.Inner.SessionQueueSize = 1 << 14
 	if rd.OldState == "token-wait" {
 		b.Mon.Inner.ClientParallelPublishes = 3
+	}
+	user, pass := "", ""
+	if rd.BadAuth {
+		// credentials are configured; a connection attempt with the same client id
+		// and a wrong password is refused right before the contenders arrive
+		b.Mon.Inner.Credentials = map[string]string{"u": "p"}
+		user, pass = "u", "p"
 	}
 	if rd.OldState == "pubrel-racing" {
 		// the hand-over of the old connection's QoS 2 message takes a moment, so
@@ -124,7 +132,7 @@ func run(r *h.Run, rd round) {
 	prep := func(fc *bh.FConn, be, pe *wire.End) { fc.PreSend = preSend(fc) }
 
 	// publisher towards the id
-	pub, _, pca, err := b.Connect("pub", bh.ConnectOpts{ID: "c13-publisher", Clean: true, AutoAck: true}, nil)
+	pub, _, pca, err := b.Connect("pub", bh.ConnectOpts{ID: "c13-publisher", Clean: true, AutoAck: true, User: user, Pass: pass}, nil)
 	if err != nil || pca == nil {
 		r.Inconclusive("publisher could not connect")
 		return
@@ -161,7 +169,7 @@ func run(r *h.Run, rd round) {
 	storedBefore := false
 	if rd.OldState != "none" {
 		var oca *packet.Connack
-		old, _, oca, err = b.Connect("old", bh.ConnectOpts{ID: theID, Clean: rd.OldClean, AutoAck: !blocked, Will: &packet.Message{Topic: "will/old", Payload: []byte("old-will"), QOS: 1}}, func(fc *bh.FConn, be, pe *wire.End) {
+		old, _, oca, err = b.Connect("old", bh.ConnectOpts{ID: theID, Clean: rd.OldClean, AutoAck: !blocked, User: user, Pass: pass, Will: &packet.Message{Topic: "will/old", Payload: []byte("old-will"), QOS: 1}}, func(fc *bh.FConn, be, pe *wire.End) {
 			fc.PreSend = preSend(fc)
 			if blocked {
 				be.SetCapacity(2048)
@@ -253,9 +261,20 @@ func run(r *h.Run, rd round) {
 			if rd.Staggered {
 				time.Sleep(time.Duration(i*150) * time.Microsecond)
 			}
-			p, _, ca, err := b.Connect(fmt.Sprintf("cont%d", i), bh.ConnectOpts{ID: theID, Clean: rd.Cleans[i], AutoAck: true}, prep)
+			p, _, ca, err := b.Connect(fmt.Sprintf("cont%d", i), bh.ConnectOpts{ID: theID, Clean: rd.Cleans[i], AutoAck: true, User: user, Pass: pass}, prep)
 			results[i] = res{p, ca, err}
 		}(i)
+	}
+	if rd.BadAuth {
+		_, _, rca, rerr := b.Connect("refused", bh.ConnectOpts{ID: theID, Clean: rd.Idx%2 == 0, User: "u", Pass: "wrong"}, nil)
+		if rerr != nil {
+			r.Inconclusive(fmt.Sprintf("%v: the refused connection attempt hit the watchdog", rd))
+			return
+		}
+		if rca == nil || rca.ReturnCode != packet.NotAuthorized {
+			fail("refused-connect-reply", fmt.Sprintf("a CONNECT with a wrong password was answered with %v", rca))
+		}
+		b.WaitClosed("refused", bh.Watchdog)
 	}
 	if rd.OldState == "dying" {
 		go func() { <-start; old.Close() }()
@@ -494,7 +513,7 @@ func boolInt(b bool) int {
 
 func TestCheck(t *testing.T) {
 	r := h.New("C13", "exploration")
-	r.Rule("rounds of 2-8 simultaneous CONNECTs with one client id (clean/unclean mixed, started together or staggered by 150us) against an old connection that is absent / idle / mid QoS 2 handshake / sending its PUBREL at that very moment / parked waiting for a publish token / dying by itself at the same moment / blocked in a send (bounded wire, peer not reading), with a publisher pumping numbered QoS 1 messages towards the id and backend-boundary perturbation; monitors: Setup/Terminate interval bookkeeping, CONNACK pre-send assertion on Closed() of every older client of the id, PINGREQ liveness probe of all contenders (exactly one survivor), session-present replay in recorded Setup order, Terminate counts, displaced will, backend bookkeeping snapshot, no loss / no second non-duplicate delivery when all parties are persistent. Non-trivial = rounds in which >= 2 Setup calls for the id succeeded; distinct by round parameters; distinct Setup orders are counted separately")
+	r.Rule("rounds of 2-8 simultaneous CONNECTs with one client id (clean/unclean mixed, started together or staggered by 150us) against an old connection that is absent / idle / mid QoS 2 handshake / sending its PUBREL at that very moment / parked waiting for a publish token / dying by itself at the same moment / blocked in a send (bounded wire, peer not reading), in a fifth of the idle / mid-handshake rounds a connection attempt with the same id and a wrong password is refused first (credentials configured), with a publisher pumping numbered QoS 1 messages towards the id and backend-boundary perturbation; monitors: Setup/Terminate interval bookkeeping, CONNACK pre-send assertion on Closed() of every older client of the id, PINGREQ liveness probe of all contenders (exactly one survivor), session-present replay in recorded Setup order, Terminate counts, displaced will, backend bookkeeping snapshot, no loss / no second non-duplicate delivery when all parties are persistent. Non-trivial = rounds in which >= 2 Setup calls for the id succeeded; distinct by round parameters; distinct Setup orders are counted separately")
 	r.Assume("the blocked-in-send variant is the recorded known finding (takeover deadlock); its detection uses a 1.5 s bound confirmed by two goroutine profiles")
 	rng := r.Rand("c13")
 	n := r.Pick(1200, 25000)
@@ -505,6 +524,7 @@ func TestCheck(t *testing.T) {
 		if rd.OldState == "token-wait" {
 			rd.Traffic = false // a stuck takeover must show as "no progress at all"
 		}
+		rd.BadAuth = i%5 == 3 && (rd.OldState == "idle" || rd.OldState == "mid-handshake")
 		allUnclean := rng.Intn(3) == 0
 		if rd.OldState == "pubrel-racing" {
 			allUnclean = true // the message must survive in the session
